@@ -74,3 +74,27 @@ Proof. vm_compute. reflexivity. Qed.
 Example C10_small_blank_pass :
   lex_view variant_of_source ex_small_blank_pass = Some [ (TSmallPass, [], false); (TNumber, [51]%Z, false) ].
 Proof. vm_compute. reflexivity. Qed.
+
+(* ================================================================== round 2: the parser half
+   theories/Parser.v (token-level transcription of src/syntax/parser.rs, tied to the code by the PARSER
+   correspondence which this check runs as an extra stream).  Statements as in Properties/PARSER.v. *)
+Require NS.Properties.PARSER.
+
+(* two token lists with the same kinds / payloads / owned flags parse to the same tree modulo spans,
+   the same named AST, the same diagnostic kinds and labels *)
+Theorem C10_parse_ignores_spans :
+  ltac:(let t := type of NS.Properties.PARSER.PARSER_parse_ignores_spans_views in exact t).
+Proof. exact NS.Properties.PARSER.PARSER_parse_ignores_spans_views. Qed.
+Print Assumptions C10_parse_ignores_spans.
+
+(* two layouts of one token sequence both parse, to the same thing *)
+Theorem C10_relayout_same_parse :
+  ltac:(let t := type of NS.Properties.PARSER.PARSER_relayout_same_parse in exact t).
+Proof. exact NS.Properties.PARSER.PARSER_relayout_same_parse. Qed.
+Print Assumptions C10_relayout_same_parse.
+
+(* redundant parentheses do not change the expression tree *)
+Theorem C10_parens_redundant :
+  ltac:(let t := type of NS.Properties.PARSER.PARSER_parens_redundant in exact t).
+Proof. exact NS.Properties.PARSER.PARSER_parens_redundant. Qed.
+Print Assumptions C10_parens_redundant.
